@@ -52,7 +52,37 @@ var c12FanBodies = [][]string{
 	{"account assets:bank\n\n2001-04-01 bank  ; kind:x\n    assets:bank  1 EUR\n    equity:x\n", "; c plain\n", "account assets:bank\n"},
 }
 
+// A third world ("graph root"): no main.journal, the root journal is found by
+// the include graph (the file nobody includes that sorts first); at start-up it
+// includes nothing, while x, outside its tree, includes y. Root discovery has
+// then seen include edges between files that are not members.
+var c12GraphNames = []string{"0root.journal", "x.journal", "y.journal", "z.journal"}
+
+var c12GraphIncludes = [][][]int{
+	{{}, {1}, {1, 3}}, // root: none / x / x and z
+	{{2}, {}, {2}},    // x: includes y (variant 1: not)
+	{{}, {}, {3}},     // y: variant 2 includes z
+	{{}, {}, {}},      // z
+}
+
+var c12GraphBodies = [][]string{
+	{"; root\n\n2001-01-01 shop\n    expenses:food  $5\n    assets:cash\n", "; root\n", "account assets:cash\n"},
+	{"account expenses:x\n\n2001-02-01 cafe  ; trip:rome\n    expenses:x  2 EUR\n    assets:cash\n", "commodity 1.000,00 EUR\n", "; x plain\n"},
+	{"account expenses:y\ncommodity $1,000.00\n\n2001-03-01 ypayee\n    expenses:y  $7\n    assets:bank\n", "account expenses:yy\n", "; y plain\n"},
+	{"account expenses:z\n\n2001-04-01 zpayee  ; kind:z\n    expenses:z  1 EUR\n    equity:z\n", "; z plain\n", "commodity 1,000.00 CHF\n"},
+}
+
+func c12NameT(table, file int) string {
+	if table == 2 {
+		return c12GraphNames[file]
+	}
+	return c12Names[file]
+}
+
 func c12IncludesT(table, file, variant int) []int {
+	if table == 2 {
+		return c12GraphIncludes[file][variant]
+	}
 	if table == 1 {
 		return c12FanIncludes[file][variant]
 	}
@@ -64,13 +94,17 @@ func c12ContentT(table, nfiles, file, variant int) string {
 		return c12Content(nfiles, file, variant)
 	}
 	var b strings.Builder
-	for _, t := range c12FanIncludes[file][variant] {
+	for _, t := range c12IncludesT(table, file, variant) {
 		if t < nfiles {
-			b.WriteString("include " + c12Names[t] + "\n")
+			b.WriteString("include " + c12NameT(table, t) + "\n")
 		}
 	}
 	b.WriteString("\n")
-	b.WriteString(c12FanBodies[file][variant])
+	if table == 2 {
+		b.WriteString(c12GraphBodies[file][variant])
+	} else {
+		b.WriteString(c12FanBodies[file][variant])
+	}
 	return b.String()
 }
 
@@ -97,7 +131,7 @@ type c12Case struct {
 	Ops      []c12Op `json:"ops"`
 	// ReadEachStep: the cached getters were called after every update
 	ReadEachStep bool `json:"getters_read_after_every_update,omitempty"`
-	// Table: 0 = the general include table, 1 = the "fan" world
+	// Table: 0 = the general include table, 1 = the "fan" world, 2 = the "graph root" world
 	Table int `json:"world_table,omitempty"`
 }
 
@@ -238,7 +272,7 @@ func c12Run(dir string, cs c12Case) (live, fresh c12View, liveW *workspace.Works
 func c12RunMode(dir string, cs c12Case, readEachStep bool) (live, fresh c12View, liveW *workspace.Workspace, disk []int) {
 	disk = make([]int, cs.NFiles)
 	for i := 0; i < cs.NFiles; i++ {
-		_ = os.WriteFile(filepath.Join(dir, c12Names[i]), []byte(c12ContentT(cs.Table, cs.NFiles, i, 0)), 0o644)
+		_ = os.WriteFile(filepath.Join(dir, c12NameT(cs.Table, i)), []byte(c12ContentT(cs.Table, cs.NFiles, i, 0)), 0o644)
 	}
 	liveW = workspace.NewWorkspace(dir, include.NewLoader())
 	_ = liveW.Initialize()
@@ -253,7 +287,7 @@ func c12RunMode(dir string, cs c12Case, readEachStep bool) (live, fresh c12View,
 	for _, op := range cs.Ops {
 		disk[op.File] = op.Variant
 		content := c12ContentT(cs.Table, cs.NFiles, op.File, op.Variant)
-		path := filepath.Join(dir, c12Names[op.File])
+		path := filepath.Join(dir, c12NameT(cs.Table, op.File))
 		_ = os.WriteFile(path, []byte(content), 0o644)
 		liveW.UpdateFile(path, content)
 		read()
@@ -407,10 +441,10 @@ func checkC12(c *core.Ctx) {
 		return
 	}
 	type world struct{ nfiles, nvar, table int }
-	worlds := []world{{2, 3, 0}, {3, 3, 0}, {4, 3, 0}, {4, 3, 1}}
+	worlds := []world{{2, 3, 0}, {3, 3, 0}, {4, 3, 0}, {4, 3, 1}, {4, 3, 2}}
 	depth := 6
 	if c.Thorough() {
-		worlds = []world{{2, 4, 0}, {3, 4, 0}, {4, 4, 0}, {5, 4, 0}, {4, 3, 1}}
+		worlds = []world{{2, 4, 0}, {3, 4, 0}, {4, 4, 0}, {5, 4, 0}, {4, 3, 1}, {4, 3, 2}}
 		depth = 8
 	}
 	sampled := 0
